@@ -1,6 +1,7 @@
 package migrateworld
 
 import (
+	"bytes"
 	"crypto"
 	"crypto/rand"
 	"crypto/sha256"
@@ -72,6 +73,7 @@ type entryMix struct {
 	BadPct     int  // share of entries whose certificate bytes do not parse
 	DupPct     int  // share of entries re-using an earlier certificate (only with the leaf-index identity function)
 	PreIssuer  bool // precertificates issued by a precert-signing certificate
+	EdgePct    int  // share of well-formed entries with an empty chain / a certificate that parses with a non-fatal error
 }
 
 // genEntry draws entry number idx of a history. tag makes the certificate
@@ -113,10 +115,17 @@ func (p *srcPKI) genEntry(t *kernel.Tape, mix entryMix, tag string, idx int, pre
 	}
 	p.serial++
 	exts := []oracle.ExtKind{"ku", "eku", "ski", "aki", "san"}
+	special := ""
+	if mix.EdgePct > 0 && t.Intn(100) < mix.EdgePct {
+		special = []string{"nonfatal", "nochain"}[t.Intn(2)]
+	}
+	if special == "nochain" {
+		chain = nil // certificate_chain<0..2^24-1> may be empty
+	}
 	issuer := p.inter
 	if isPre {
 		exts = append(exts, "poison")
-		if mix.PreIssuer && t.Chance(1, 2) {
+		if mix.PreIssuer && special != "nochain" && t.Chance(1, 2) {
 			issuer = p.pre
 			chain = append([][]byte{p.pre.DER}, chain...)
 		}
@@ -128,10 +137,38 @@ func (p *srcPKI) genEntry(t *kernel.Tape, mix entryMix, tag string, idx int, pre
 	if t.Chance(1, 8) {
 		ext = []byte{0xca, 0xfe} // CT extensions are opaque to a mirror
 	}
-	if isPre {
-		return &srcEntry{Leaf: oracle.MerkleTreeLeaf(ts, leaf.EntryFor(), ext), Extra: oracle.PrecertExtraData(leaf.DER, chain), CertData: leaf.DER, Kind: "precert"}
+	suffix := ""
+	if special == "nochain" {
+		suffix = ".nochain"
 	}
-	return &srcEntry{Leaf: oracle.MerkleTreeLeaf(ts, leaf.EntryFor(), ext), Extra: oracle.X509ExtraData(chain), CertData: leaf.DER, Kind: "x509"}
+	if isPre {
+		return &srcEntry{Leaf: oracle.MerkleTreeLeaf(ts, leaf.EntryFor(), ext), Extra: oracle.PrecertExtraData(leaf.DER, chain), CertData: leaf.DER, Kind: "precert" + suffix}
+	}
+	if special == "nonfatal" {
+		// the dNSName of the subjectAltName re-tagged as an iPAddress of impossible length: the certificate
+		// still parses, with a non-fatal error (the signature is not checked by anybody on this path)
+		if der, ok := retagSAN(leaf.DER); ok {
+			e := oracle.Entry{Type: oracle.X509Entry, Cert: der}
+			return &srcEntry{Leaf: oracle.MerkleTreeLeaf(ts, e, ext), Extra: oracle.X509ExtraData(chain), CertData: der, Kind: "x509.nonfatal"}
+		}
+	}
+	return &srcEntry{Leaf: oracle.MerkleTreeLeaf(ts, leaf.EntryFor(), ext), Extra: oracle.X509ExtraData(chain), CertData: leaf.DER, Kind: "x509" + suffix}
+}
+
+// retagSAN turns the [2] dNSName of the generated subjectAltName into a [7] iPAddress in a copy of der.
+func retagSAN(der []byte) ([]byte, bool) {
+	i := bytes.Index(der, []byte(".example.test"))
+	if i < 0 {
+		return nil, false
+	}
+	for j := i; j > 1 && j > i-64; j-- {
+		if der[j-2] == 0x82 && int(der[j-1]) == i-j+len(".example.test") {
+			out := append([]byte{}, der...)
+			out[j-2] = 0x87
+			return out, true
+		}
+	}
+	return nil, false
 }
 
 func sha256sum(b []byte) []byte { s := sha256.Sum256(b); return s[:] }
@@ -187,21 +224,48 @@ func mustJSON(v any) []byte {
 	return b
 }
 
-// STH builds a get-sth body for the current size. badSig corrupts the signature.
-func (s *Source) STH(now time.Time, badSig bool) (body []byte, size int, root []byte) {
-	size = s.Size
+// sthBadKinds are the ways a served tree head can fail to be a validly signed tree head of this log.
+var sthBadKinds = []string{"other-timestamp", "foreign-key", "size-inflated", "root-flipped", "root-short", "ds-trailing"}
+
+// STH builds a get-sth body for tree size `size` (the current one, or an older one served by a lagging
+// front end). bad != "" makes it one of sthBadKinds: none of those verifies under the log's key.
+func (s *Source) STH(now time.Time, size int, bad string) (body []byte, root []byte) {
 	root = s.Hist.Root(size)
 	ts := uint64(now.UnixMilli())
 	msg := oracle.STHSignatureInput(ts, uint64(size), root)
-	if badSig {
-		msg = oracle.STHSignatureInput(ts+1, uint64(size), root) // a signature over a different tree head
+	key := s.Key
+	out := sthJSON{TreeSize: uint64(size), Timestamp: ts, Root: b64(root)}
+	switch bad {
+	case "other-timestamp":
+		msg = oracle.STHSignatureInput(ts+1, uint64(size), root)
+	case "foreign-key":
+		for _, k := range oracle.Keys(s.Key.Kind) {
+			if k != s.Key {
+				key = k
+			}
+		}
+	case "size-inflated": // claims more entries than the signature covers
+		out.TreeSize = uint64(size) + 1
+	case "root-flipped":
+		r := append([]byte{}, root...)
+		r[7] ^= 1
+		out.Root = b64(r)
+	case "root-short":
+		out.Root = b64(root[:31])
 	}
-	ds := digitallySigned(s.Key, msg)
-	return mustJSON(sthJSON{TreeSize: uint64(size), Timestamp: ts, Root: b64(root), Sig: b64(ds)}), size, root
+	ds := digitallySigned(key, msg)
+	if bad == "ds-trailing" {
+		ds = append(ds, 0)
+	}
+	out.Sig = b64(ds)
+	return mustJSON(out), root
 }
 
 // Entries builds a get-entries body for [start, end] capped at limit entries; status 400 for a bad range.
-func (s *Source) Entries(start, end int64, limit int) (status int, body []byte, n int) {
+// malformedKinds are structural defects of one served entry (not of its certificate).
+var malformedKinds = []string{"leaf-truncated", "leaf-trailing", "entry-type-unknown", "extra-trailing", "extra-empty"}
+
+func (s *Source) Entries(start, end int64, limit int, malformed string, malAt int) (status int, body []byte, n int) {
 	if start < 0 || end < start || start >= int64(s.Size) {
 		return 400, []byte(fmt.Sprintf("bad range [%d,%d] for tree size %d\n", start, end, s.Size)), 0
 	}
@@ -212,12 +276,31 @@ func (s *Source) Entries(start, end int64, limit int) (status int, body []byte, 
 	if limit > 0 && cnt > limit {
 		cnt = limit
 	}
+	if limit < 0 {
+		cnt = 0 // a 200 that carries no entry at all
+	}
 	out := struct {
 		Entries []entryJSON `json:"entries"`
-	}{}
+	}{Entries: []entryJSON{}}
 	for i := 0; i < cnt; i++ {
 		e := s.Hist.Entries[int(start)+i]
-		out.Entries = append(out.Entries, entryJSON{Leaf: b64(e.Leaf), Extra: b64(e.Extra)})
+		leaf, extra := e.Leaf, e.Extra
+		if malformed != "" && i == malAt%cnt {
+			switch malformed {
+			case "leaf-truncated":
+				leaf = leaf[:len(leaf)-3]
+			case "leaf-trailing":
+				leaf = append(append([]byte{}, leaf...), 0)
+			case "entry-type-unknown":
+				leaf = append([]byte{}, leaf...)
+				leaf[11] = 2 // version leaf_type timestamp(8) entry_type(2)
+			case "extra-trailing":
+				extra = append(append([]byte{}, extra...), 0)
+			case "extra-empty":
+				extra = nil
+			}
+		}
+		out.Entries = append(out.Entries, entryJSON{Leaf: b64(leaf), Extra: b64(extra)})
 	}
 	return 200, mustJSON(out), cnt
 }
@@ -230,7 +313,10 @@ func (s *Source) Consistency(first, second int64) (status int, proof [][]byte, b
 	return 200, s.Hist.Proof(int(first), int(second)), nil
 }
 
-func consistencyBody(proof [][]byte) []byte {
+func consistencyBody(proof [][]byte, omitEmpty bool) []byte {
+	if len(proof) == 0 && omitEmpty {
+		return []byte("{}") // the field is absent altogether
+	}
 	out := struct {
 		Consistency []string `json:"consistency"`
 	}{Consistency: []string{}}
@@ -250,9 +336,12 @@ func mutateProof(p [][]byte, how int) ([][]byte, string) {
 	if len(q) == 0 {
 		return [][]byte{junk}, "extra"
 	}
-	switch how % 4 {
+	switch how % 5 {
+	case 4:
+		q[len(q)-1] = q[len(q)-1][:31]
+		return q, "short-hash"
 	case 0:
-		q[how/4%len(q)][5] ^= 0x40
+		q[how/5%len(q)][5] ^= 0x40
 		return q, "flip"
 	case 1:
 		return q[:len(q)-1], "drop"
